@@ -78,6 +78,25 @@ CHECKS = {
    text="For every grid instance of the bound every configuration of boundary kinds within the deviation bound, every periodic subset of the non-radial axes, generic and unit interior fields and each of construction / apply_BCs after edits / solvePDE / solveExplicitPDE is executed and every boundary face is checked: Robin relation with the metric factor, exact wrap on periodic axes and only there, plotprofile boundary entries, zero residual of the solver's boundary rows on the reported array, invariance under scaling (a,b,c). Exhaustive within the deviation bound.",
    note="Only non-singular coefficient choices are generated (checked per face); quick uses deviation bound 2 (3-D solves: 1) and three spacing vectors per shape; one recorded finding (periodic axis with unequal end cells).",
    ref="DESIGN.md 4/C03"),
+
+ "C04": dict(
+   engine="B-cfgsolve",
+   technique="exhaustive enumeration of programs: all ordered term lists up to length 3 (thorough 4) over a 12-kind term alphabet x class x shape x BC set-up, executed with a spy solver against an independently accumulated dense system",
+   text="Every ordered term list within the length bound (matrix, vector, (matrix, vector) pairs, negated, scaled, plain tuple, SignedTuple and its negation; one mandatory well-conditioned base term at a varying position) is solved on 9 classes x 2 shapes x 3 BC set-ups; solvePDE must return its argument, the spy solver must have received exactly the hand-assembled system and its answer must be what the variable holds, residuals of interior and boundary rows must vanish, the result must equal solveMatrixPDE of the hand-assembled system and be independent of the term order; ghost rows of every builder are exactly zero on every grid instance; the solution is the superposition of unit-source, unit-boundary-datum and unit-previous-value solutions. Exhaustive over programs within the bound.",
+   note="Programs whose assembled matrix is ill-conditioned (cond*eps > 1e-6) are reported as preconditions_failed; periodic set-ups use equal end cells (unequal ends are C03's recorded finding).",
+   ref="DESIGN.md 4/C04"),
+ "C12": dict(
+   engine="B-cfgsolve",
+   technique="configuration lattice (class x shape x spacing x BC set-up x term subset x alpha kind) enumerated completely, each with the full 14-value dt alphabet and all 8 implicit/explicit step sequences of length 3",
+   text="For every configuration the backward-Euler residual form is evaluated in every interior cell for every dt of the 12-decade alphabet, the steady solution must be a fixed point for every dt and alpha (scalar and per cell), the limits dt=2^40 / 2^-40 must return the steady solution / the old field within first-order bounds, solveExplicitPDE must equal old+dt*RHS with re-imposed boundary values and leave its clean input byte-identical, explicit and implicit steps must differ by O(dt^2) (ratio >= 3.5 per halving in the asymptotic range) and every mixed sequence of three steps must satisfy the per-step oracles. Exhaustive over the lattice and the dt alphabet.",
+   note="Continuous dt range represented by a finite alphabet (10^-6..10^5, 2^+-40); tolerances 64*eps*cond of the row-equilibrated system; periodic set-ups use equal end cells.",
+   ref="DESIGN.md 4/C12"),
+ "C17": dict(
+   engine="B-cfgsolve + A-opcheck",
+   technique="metamorphic enumeration: every configuration of the reduced lattice is executed under every (L,T,K) triple of the scale alphabet (exact powers of two, plus decimal factors) and compared with the unscaled run; linearity decided on all unit coefficient fields x scales and all pairs of unit coefficient fields",
+   text="Each configuration (9 classes x spacing x origin x 3 BC set-ups x 6 term subsets incl. TVD x implicit/explicit, 3 steps) is re-run with every input rescaled by its physical dimension; for power-of-two factors the solution divided by K must agree to 4 ulp, for decimal factors to 64*eps*cond. Homogeneity T(lambda e_f)=lambda T(e_f) (exact) and additivity T(e_f+e_g)=T(e_f)+T(e_g) are checked for every unit face coefficient and every pair on every grid instance of the linearity bound (upwind at fixed upwind direction). Exhaustive within the alphabets.",
+   note="Scale factors over +-6 decades represented by {2^-20,2^-7,2^3,2^20} and {1e-6,1e-3,1e3,1e6}; quick uses 14 triples, thorough all 64 + 10.",
+   ref="DESIGN.md 4/C17"),
 }
 NOT_YET = {}
 
